@@ -3,12 +3,16 @@
   String predicates are defined on `List Char` so that the kernel can compute through them.
 -/
 import Bkl.Fields
+import Bkl.UnicodeLower
 namespace Bkl
 
-/-- unicode.IsLower restricted to ASCII and Latin-1 (generators stay inside; see DESIGN §9). -/
+/-- unicode.IsLower: ASCII and Latin-1 by rule (Go's `properties` table), everything above by the
+    toolchain's `unicode.Lower` range table (Bkl/UnicodeLower.lean, checked against the toolchain on
+    every run by fact F14). -/
 def isLowerModel (c : Char) : Bool :=
-  c.isLower || c == 'µ' ||
-  (0xDF ≤ c.toNat && c.toNat ≤ 0xFF && c.toNat != 0xF7)
+  if c.toNat ≤ 0xFF then
+    c.isLower || c == 'µ' || (0xDF ≤ c.toNat && c.toNat != 0xF7)
+  else inRanges c.toNat unicodeLowerRanges
 
 /-- validate.go:validateString on characters -/
 def validateChars (cs : List Char) : R Unit :=
